@@ -32,6 +32,8 @@ def scripts(rng, tier, n=None):
     for k in range(n):
         ssrc = rng.randrange(2, 1 << 32)
         p, ext_p = strat_policy(rng, k, ssrc=ssrc, valid=True)
+        if k % 10 == 4:
+            p.rtp = p.rtp[:5] + (3,)           # cryptex is defined for streams with confidentiality
         # a third of the scripts use wildcard policies on both sides: the streams that do the work are clones of
         # the template (srtp_stream_clone copies services, keys, MKI setting, window size), several SSRCs
         wild = rng.random() < 0.35
@@ -44,7 +46,13 @@ def scripts(rng, tier, n=None):
         gaps = []           # sequence numbers the sender skipped: sent LATE afterwards (sender-side reordering, also across the wrap)
         for i in range(8 if tier == "quick" else 30):
             big = tier != "quick" and rng.random() < 0.05
-            if gaps and not wild and rng.random() < 0.3:
+            if k % 10 == 4 and i < 4:
+                # cryptex with CSRCs and next to nothing behind them: 4*cc octets move across the extension header, the bounds of the
+                # encrypted portion are computed differently in place and not in place
+                cc_, xd, pl = [(1, b"", 0), (3, rand_key(rng, 4), 4), (15, b"", 16), (2, rand_key(rng, 4), 3)][i]
+                pkt = rtp_packet(ssrcs[0], seq & 0xffff, payload=rand_key(rng, pl), cc=cc_, ext=(0xBEDE, xd))
+                seq += 1
+            elif gaps and not wild and rng.random() < 0.3:
                 late = gaps.pop(rng.randrange(len(gaps)))
                 pkt = rand_rtp(rng, ssrcs[0], late & 0xffff, ids=list(p.enc_xtn) or None, big=big, ext_p=ext_p)
             else:
